@@ -20,6 +20,10 @@ def zeroLeaves (c : Cfg) (hs : ∀ b, c.validSk b = true) (hp : ∀ b, c.validPk
   ek := fun _ => List.replicate c.ek 0
   sigKey := fun _ => List.replicate SIGK 0
   mac := fun _ => List.replicate SIG 0
+  tag := fun _ => List.replicate TAG 0
+  trap := fun _ _ => List.replicate c.pk 0
+  mask := fun _ _ => List.replicate SS 0
+  ct := fun _ _ => List.replicate c.enc 0
   scalar_len := by intro; simp only [List.length_replicate]
   scalar_ok := by intro; exact hs _
   point_len := by intro; simp only [List.length_replicate]
@@ -28,6 +32,11 @@ def zeroLeaves (c : Cfg) (hs : ∀ b, c.validSk b = true) (hp : ∀ b, c.validPk
   ek_len := by intro; simp only [List.length_replicate]
   sigKey_len := by intro; simp only [List.length_replicate]
   mac_len := by intro; simp only [List.length_replicate]
+  tag_len := by intro; simp only [List.length_replicate]
+  trap_len := by intro _ _; simp only [List.length_replicate]
+  trap_ok := by intro _ _; exact hp _
+  mask_len := by intro _ _; simp only [List.length_replicate]
+  ct_len := by intro _ _; simp only [List.length_replicate]
 
 def zeroLeavesC25519 : Leaves cfgC25519 := zeroLeaves cfgC25519 (fun _ => rfl) (fun _ => rfl)
 def zeroLeavesP256 : Leaves cfgP256 := zeroLeaves cfgP256 (fun _ => rfl) (fun _ => rfl)
@@ -68,6 +77,10 @@ def usk (u : WUsk) : WUsk :=
     ps := u.ps.map zeros
     secrets := (u.secrets.map (fun p => (p.1, p.2.map key))).mergeSort (fun a b => bytesLe a.1 b.1)
     signature := u.signature.map zeros }
+
+/-- the components are shuffled: all that is left is their number and flavour -/
+def enc (x : WEnc) : WEnc :=
+  { tag := zeros x.tag, c := x.c.map zeros, hyb := x.hyb, encs := x.encs.map (fun p => (zeros p.1, zeros p.2)) }
 
 end Shape
 end CC
